@@ -87,9 +87,12 @@ pub fn type_cast<Data: GarnishData>(this: &mut Data) -> Result<Option<Data::Size
             this.end_list(list_index).and_then(|r| this.push_register(r))?
         }
         (GarnishDataType::Range, GarnishDataType::List) => {
-            let (start, end) = this.get_range(left.clone())?;
-            let len = end - start + Data::Size::one();
-            let (start, end, _) = get_range(this, left)?;
+            // the list holds one item per number of the range; a range that ends before it starts is empty
+            let (start, end, len) = get_range(this, left)?;
+            let len = match len > Data::Number::zero() {
+                true => <Data as GarnishData>::DataFactory::number_to_size(len).unwrap_or(Data::Size::zero()),
+                false => Data::Size::zero(),
+            };
             let mut count = start;
 
             let mut list_index = this.start_list(len)?;
